@@ -99,6 +99,38 @@ def strip_docstring(body: Sequence[ast.stmt]) -> List[ast.stmt]:
     return list(body)
 
 
+def _name_occurrences(fn, name):
+    return sum(1 for x in ast.walk(fn) if (isinstance(x, ast.Name) and x.id == name) or (isinstance(x, ast.arg) and x.arg == name))
+
+
+def canonicalise(tree):
+    """Canonical form shared by all rules: a temporary that is assigned and then consumed exactly once by the NEXT statement, when that
+    statement is a `return` or a single attribute store (`obj.field = tmp`), is forwarded into its consumer
+        tmp = E ; return tmp        ->  return E
+        tmp = E ; obj.f = tmp       ->  obj.f = E
+    (the name must not occur anywhere else in the function).  Evaluation order is unchanged — E is evaluated immediately before the
+    consumer either way — so rules see the same program whether or not the author named the intermediate value."""
+    for fn in [n for n in ast.walk(tree) if isinstance(n, (ast.FunctionDef, ast.AsyncFunctionDef))]:
+        for blk_owner in ast.walk(fn):
+            for field in ("body", "orelse", "finalbody"):
+                blk = getattr(blk_owner, field, None)
+                if not isinstance(blk, list) or not blk or not isinstance(blk[0], ast.stmt):
+                    continue
+                i = 0
+                while i + 1 < len(blk):
+                    a, b = blk[i], blk[i + 1]
+                    if isinstance(a, ast.Assign) and len(a.targets) == 1 and isinstance(a.targets[0], ast.Name):
+                        nm = a.targets[0].id
+                        consumer_ok = (isinstance(b, ast.Return) and isinstance(b.value, ast.Name) and b.value.id == nm) or \
+                            (isinstance(b, ast.Assign) and len(b.targets) == 1 and isinstance(b.targets[0], ast.Attribute) and isinstance(b.value, ast.Name) and b.value.id == nm
+                             and not any(isinstance(x, ast.Name) and x.id == nm for x in ast.walk(b.targets[0])))
+                        if consumer_ok and _name_occurrences(fn, nm) == 2:
+                            b.value = a.value
+                            del blk[i]
+                            continue
+                    i += 1
+
+
 def set_parents(tree):
     for p in ast.walk(tree):
         for c in ast.iter_child_nodes(p):
@@ -230,6 +262,8 @@ class Repo:
                 except SyntaxError as e:
                     self.parse_errors.append(f"{rel}: {e}")
                     continue
+                if not os.environ.get("SA_NO_CANON"):
+                    canonicalise(tree)
                 set_parents(tree)
                 mi = ModuleInfo(rel, path, src, tree)
                 self._index(mi)
